@@ -228,7 +228,7 @@ fn judge(ctx: &mut Ctx, class: &str, file: &[u8], without: &[u8], expect: Option
     let end = r.rsplit("end[").next().unwrap_or("");
     if let Some(e) = expect {
         if !end.contains(e.trim_end()) {
-            ctx.rep.violation("oracle", &format!("value-not-reported/{}", class), &format!("expected `{}` in Info after finish(), got `{}`", e.trim(), &end[..end.len().min(500)]), case());
+            ctx.rep.violation("oracle", &format!("value-not-reported/{}", class), &format!("expected `{}` in Info after finish(), got `{}`", e.trim(), &crate::util::shorten(end, 500, 0)), case());
             return;
         }
     }
@@ -236,7 +236,7 @@ fn judge(ctx: &mut Ctx, class: &str, file: &[u8], without: &[u8], expect: Option
         // the whole Info must equal the Info of the file without the chunk
         let end0 = r0.rsplit("end[").next().unwrap_or("");
         if end != end0 {
-            ctx.rep.violation("oracle", &format!("not-ignored/{}", class), &format!("a chunk that must be ignored ({}) changed the reported metadata: `{}` vs `{}`", a, &end[..end.len().min(400)], &end0[..end0.len().min(400)]), case());
+            ctx.rep.violation("oracle", &format!("not-ignored/{}", class), &format!("a chunk that must be ignored ({}) changed the reported metadata: `{}` vs `{}`", a, &crate::util::shorten(end, 400, 0), &crate::util::shorten(end0, 400, 0)), case());
             return;
         }
     }
@@ -245,7 +245,7 @@ fn judge(ctx: &mut Ctx, class: &str, file: &[u8], without: &[u8], expect: Option
     let m = model_ans.rsplitn(2, " | ").last().unwrap_or("");
     let s = run_streaming(file, &[], &DEFAULT_OPTS);
     if !same_modulo_error_detail(m, &s) {
-        ctx.rep.violation("model", &format!("framing-info/{}", class), &format!("framing model `{}` vs StreamingDecoder `{}`", &m[..m.len().min(600)], &s[..s.len().min(600)]), case());
+        ctx.rep.violation("model", &format!("framing-info/{}", class), &format!("framing model `{}` vs StreamingDecoder `{}`", &crate::util::shorten(m, 600, 0), &crate::util::shorten(&s, 600, 0)), case());
     }
 }
 
